@@ -246,12 +246,13 @@ pub fn run(ctx: &mut Ctx, prop: &str) {
             }
         }
     }
-    // radix literal families against a few numbers (the conversion runs inside every comparison)
-    for x in al::radix_families() {
+    // radix literal families and integer digit strings against a few numbers (the conversion runs inside every
+    // comparison)
+    for x in al::radix_families().into_iter().chain(al::integer_digit_strings()) {
         if !ctx.mine() {
             continue;
         }
-        for y in [json!(0), json!(1), json!("0"), json!(1.8446744073709552e19), json!(true), json!([0])] {
+        for y in [json!(0), json!(1), json!("0"), json!(1.8446744073709552e19), json!(true), json!([0]), json!(18446744073709551615u64), json!(1e30), json!(-1e19)] {
             ctx.edge();
             for k in ops {
                 ctx.check(&format!("{}:radix-family", k), &op(k, vec![x.clone(), y.clone()]), &null);
@@ -354,4 +355,5 @@ pub fn run(ctx: &mut Ctx, prop: &str) {
     crate::spaces::render_probes(ctx, ops);
     crate::spaces::type_grid_probes(ctx, ops);
     crate::spaces::depth_probes(ctx);
+    crate::spaces::sweep::length_sweep(ctx);
 }
